@@ -48,7 +48,7 @@ def file_bytes(recs, fnl):
     for r in recs:
         eol = b"\r\n" if r["eol"] == 2 else b"\n"
         extra = r["hlen"] - 1 - len(r["name"])
-        hdr = b">" + r["name"].encode() + (b" " + b"d" * (extra - 1) if extra > 0 else b"")
+        hdr = b">" + r["name"].encode() + (r.get("hsep", " ").encode() + b"d" * (extra - 1) if extra > 0 else b"")
         assert len(hdr) == r["hlen"]
         out += hdr + eol
         res = "".join(r["res"]).encode()
@@ -146,8 +146,21 @@ def run_file(sc):
             if info is None:
                 continue
             n = len(r["res"])
-            for s in range(1, n + 1):
-                for e in range(s, n + 1):
+            if opts.get("reads") == "sample":
+                # long records: intervals inside one line, across two lines and across many, all along the record
+                w = r["w"]
+                ivs = set()
+                for _ in range(40):
+                    s0 = rng.randint(1, n)
+                    ivs.add((s0, min(n, s0 + rng.choice([0, 1, w - 1, w, w + 1, 3 * w, 50 * w]))))
+                    ln = rng.randint(0, (n - 1) // w)
+                    a = ln * w + 1
+                    ivs.add((min(n, a + rng.randint(0, w - 1)), min(n, a + w - 1 - rng.randint(0, 1))))
+                ivs = sorted((a, b) for a, b in ivs if a <= b)
+            else:
+                ivs = [(s, e) for s in range(1, n + 1) for e in range(s, n + 1)]
+            for s, e in ivs:
+                if True:
                     out = C.guarded(lambda _: fi.sequence_bytes(info, s, e).getvalue(), None, 5.0)
                     t["reads"].append({"k": k, "s": s, "e": e, "exc": "" if out[0] == "ok" else (out[1] if out[0] == "exc" else "HANG"),
                                        "got": chars(out[1]) if out[0] == "ok" else []})
@@ -256,6 +269,19 @@ def run_rev(sc):
         s.add_row(extra)
         t["rev_after_own_change"] = [pr(r) for r in s.reverse().rows]
         t["own_changed"] = [pr(r) for r in s.rows]
+        # ... and changes that do not go through add_row: a row replaced in place (OverlapResult.trim_fragment does that), a scaffold appended
+        s2 = Scaffold("s", [mkrow(r) for r in sc["rows"]])
+        r3 = s2.reverse()
+        if r3.rows:
+            r3.rows[0] = extra
+        else:
+            r3.rows.append(extra)
+        t["rev_of_inplace"] = [pr(r) for r in r3.reverse().rows]
+        t["inplace"] = [pr(r) for r in r3.rows]
+        r4 = s2.reverse()
+        r4.append_scaffold(Scaffold("y", [extra]))
+        t["rev_of_appended"] = [pr(r) for r in r4.reverse().rows]
+        t["appended"] = [pr(r) for r in r4.rows]
     except Exception as e:  # noqa: BLE001
         t["exc"] = type(e).__name__
     return t
@@ -269,6 +295,11 @@ def table_traces(tid0, rng, n):
         s = bytes(rng.choice(b"ACGTRYMKSWHBVDNacgtrymkswhbvdn-*xZ\x00\xff") for _ in range(L))
         rc = simple.reverse_complement(s)
         out.append({"tid": tid0 + 1 + i, "kind": "rc", "s": list(s), "rc": list(rc), "rcrc": list(simple.reverse_complement(rc))})
+    # sequences longer than any internal block size a "memory saving" rewrite might use (64 KiB, 128 KiB)
+    for L in (65537, 70001, 131075):
+        s = bytes(rng.choice(b"ACGTRYNacgtn") for _ in range(L))
+        rc = simple.reverse_complement(s)
+        out.append({"tid": tid0 + 1 + len(out), "kind": "rc", "s": list(s), "rc": list(rc), "rcrc": list(simple.reverse_complement(rc))})
     return out
 
 
@@ -364,11 +395,13 @@ def reject_traces(tid0, root):
 FILE_CONSTS = {
     "quick": ['MaxRecs = 1 MaxLen = 5 Alphabet = {"A", "c", "N"} Widths = {1, 2, 3, 5} Bufs = {1} Fixed = TRUE',
               'MaxRecs = 2 MaxLen = 3 Alphabet = {"A", "N"} Widths = {1, 2} Bufs = {1} Fixed = TRUE',
-              'MaxRecs = 1 MaxLen = 4 Alphabet = {"R", "y", "G", "k"} Widths = {3} Bufs = {1} Fixed = TRUE'],
+              'MaxRecs = 1 MaxLen = 4 Alphabet = {"R", "y", "G", "k"} Widths = {3} Bufs = {1} Fixed = TRUE',
+              'MaxRecs = 1 MaxLen = 3 Alphabet = {"A", "U", "u", "-", "*"} Widths = {2} Bufs = {1} Fixed = TRUE'],
     "thorough": ['MaxRecs = 1 MaxLen = 6 Alphabet = {"A", "c", "N"} Widths = {1, 2, 3, 4, 6} Bufs = {1} Fixed = TRUE',
                  'MaxRecs = 2 MaxLen = 3 Alphabet = {"A", "n", "R"} Widths = {1, 2} Bufs = {1} Fixed = TRUE',
                  'MaxRecs = 3 MaxLen = 2 Alphabet = {"A", "N"} Widths = {1, 2} Bufs = {1} Fixed = TRUE',
-                 'MaxRecs = 1 MaxLen = 3 Alphabet = {"R", "y", "G", "k", "M", "b", "D", "h", "V", "S", "w"} Widths = {2} Bufs = {1} Fixed = TRUE'],
+                 'MaxRecs = 1 MaxLen = 3 Alphabet = {"R", "y", "G", "k", "M", "b", "D", "h", "V", "S", "w"} Widths = {2} Bufs = {1} Fixed = TRUE',
+                 'MaxRecs = 1 MaxLen = 4 Alphabet = {"A", "U", "u", "-", "*", "x"} Widths = {3} Bufs = {1} Fixed = TRUE'],
 }
 MC_CONSTS = {
     "quick": [("index", 'MaxRecs = 2 MaxLen = 3 Alphabet = {"A", "N"} Widths = {1, 2, 3} Bufs = {1, 2, 3, 7} Fixed = TRUE',
@@ -407,6 +440,28 @@ def export_files(run, tier, sample=None, rng=None):
     return files
 
 
+def long_files(rng, tier, opts):
+    """records of hundreds of lines (line numbers and byte offsets beyond one byte, buffers much shorter than a record): blocks of bases and of
+    N of random lengths, written 1, 2, 3 or 60 to a line; indexed under small and large buffers, the derived assembly streamed, a sample of intervals read"""
+    out = []
+    for width, total in ((1, 300), (2, 640), (3, 1000), (60, 20000))[: 3 if tier == "quick" else 4]:
+        for _ in range(2 if tier == "quick" else 6):
+            res = []
+            while len(res) < total:
+                res += [rng.choice("ACGTacgt")] * 0 + [rng.choice("ACGTacgt") for _ in range(rng.choice([1, 1, 2, 5, 30, 3 * width + 1]))]
+                res += ["N"] * rng.choice([0, 1, 2, width, 2 * width + 1])
+            res = res[:total]
+            recs = [{"name": "s1", "hlen": 3, "res": res, "w": width, "eol": rng.choice([1, 2])}]
+            o = dict(opts)
+            if o.get("reads"):
+                o["reads"] = "sample"
+            o["singles"] = False
+            o["multis"] = min(o.get("multis", 0), 2)
+            out.append({"recs": recs, "fnl": rng.choice([0, 1]), "Bs": [1, 7, 64, BIG] if width < 60 else [64, 1000, BIG], "Ls": [60, 7], "opts": o,
+                        "seed": C.seed(), "cls": "long-record"})
+    return out
+
+
 def export_rev(run):
     r = C.export("FastaScen", "INIT ScenInit\nNEXT ScenNext\nCHECK_DEADLOCK FALSE\nCONSTRAINT Emit\nCONSTANTS " + FILE_CONSTS["quick"][1] +
                  ' Which = "rev"\n', run.dir, name="scen-rev")
@@ -424,6 +479,12 @@ def engine(run, tier, pid, opts, mc_which, sample=None, extra_kinds=()):
     scen = []
     for f in files:
         scen.append({"recs": f["recs"], "fnl": f["fnl"], "Bs": BS[tier], "Ls": LS, "opts": opts, "seed": C.seed()})
+    # the same files with a description after every name, separated by a TAB or by a space (the name ends at the first white space)
+    for f in rng.sample(files, min(len(files), 300 if tier == "quick" else 3000)):
+        sep = rng.choice(["\t", " ", "\t"])
+        recs = [dict(r, hlen=r["hlen"] + 6, hsep=sep) if r["hlen"] == 2 + len(r["name"]) else dict(r, hsep=sep) for r in f["recs"]]
+        scen.append({"recs": recs, "fnl": f["fnl"], "Bs": BS[tier], "Ls": LS, "opts": opts, "seed": C.seed(), "cls": "described-headers"})
+    scen += long_files(rng, tier, opts)
     for i, s in enumerate(scen, 1):
         s["tid"] = i
     traces = C.pmap("harness.fasta_engine", "run_file", scen, chunk=100)
